@@ -499,3 +499,63 @@ def check_filter_offsets(ctx):
     fm = [(b, i, e) for (b, i, e) in tg.events("call") if is_call(e, "ldb_filter_matches")]
     ctx.check(len(fm) == 1 and argkey(fm[0][2], 1) == "handle.offset", "T6-filter-offset", "reader:block-offset", tg.name, tg.loc,
               "the reader consults the filter of the block's own start offset", "the reader consults the filter at %s" % [argkey(e, 1) for b, i, e in fm])
+
+
+def check_twoiter_status(ctx):
+    """ldb_twoiter_status reports the first error among the index iterator,
+    the current data iterator and the error latched from earlier data
+    iterators: a child's status is returned only if it is an error, otherwise
+    the latched status is what the caller sees."""
+    f = ctx.fn("ldb_twoiter_status", "src/table/two_level_iterator.c")
+    g = xgraph(ctx.P, f)
+    rets = [(b, i, e) for (b, i, e) in f.events("ret") if e.get("x") is not None]
+    ctx.require(len(rets) >= 2, "ldb_twoiter_status: returns not found")
+    latched = 0
+    for b, i, e in rets:
+        k2 = key(e["x"])
+        if k2 == "iter->status":
+            latched += 1
+            continue
+        atoms = g.must_at(b, i)
+        ctx.check(holds(atoms, ("!=", k2, "0")), "T4-iterator-status-read", "twoiter_status:child-only-if-error@%s" % e["l"].split(":")[1], f.name,
+                  site(f, e), "a child's status is returned only when it is an error",
+                  "`return %s` can return OK and hide the latched error; facts %s" % (k2, fmt_atoms(atoms)))
+    ctx.check(latched >= 1, "T4-iterator-status-read", "twoiter_status:latched", f.name, f.loc,
+              "otherwise the latched status is returned", "the latched status is no longer returned")
+    st = sorted(argkey(e, 0) for b, i, e in f.events("call") if is_call(e, "ldb_wrapiter_status"))
+    ctx.check(st == ["&iter->data_iter", "&iter->index_iter"], "T4-iterator-status-read", "twoiter_status:children", f.name, f.loc,
+              "both children are asked", "children asked: %s" % st)
+
+
+def check_policy_wrapping(ctx):
+    """Tables hold internal keys; a user filter policy sees user keys.  Every
+    component that builds or reads tables (the database, repair) wraps the user
+    policy with ldb_ifp_init before it hands its options to the table layer -
+    a raw policy builds filters over internal keys, and every later point
+    lookup through the database misses the keys of such a table."""
+    from ..rules import must_pass_before_success
+    for fname, file in (("repair_init", "src/repair.c"), ("ldb_create", "src/db_impl.c")):
+        f = ctx.fn(fname, file)
+        so = [(b, i, e) for (b, i, e) in f.events("call") if is_call(e, "ldb_sanitize_options")]
+        ctx.require(len(so) == 1, "%s: ldb_sanitize_options call not found" % fname)
+        pol = argkey(so[0][2], 2)
+        ctx.require(pol is not None and pol.startswith("&"), "%s: internal policy argument not found" % fname)
+
+        def step(q, e, st, b, i, pol=pol):
+            if q == BAD:
+                return q
+            if is_call(e, "ldb_ifp_init") and argkey(e, 0) == pol:
+                return 1
+            if is_call(e, "ldb_sanitize_options") and q == 0:
+                return BAD
+            return q
+        from ..rules import check_automaton, BAD
+        check_automaton(ctx, "T6-policy-wrapping", fname, f, 0, step, None,
+                        "the policy handed to the table layer was initialised by ldb_ifp_init on every path")
+        raw = [key(e["rhs"]) for b, i, e in f.events("asg") if key(e["lhs"]) == pol[1:]]
+        ctx.check(not raw, "T6-policy-wrapping", fname + ":no-raw-copy", f.name, f.loc,
+                  "the internal policy is never a plain copy of the user's", "%s assigned from %s" % (pol[1:], raw))
+    sz = ctx.fn("ldb_sanitize_options", "src/db_impl.c")
+    fp = [key(e["rhs"]) for b, i, e in sz.events("asg") if key(e["lhs"]) == "result.filter_policy"]
+    ctx.check(len(fp) == 1 and "ipolicy" in fp[0] and "src->filter_policy" in fp[0], "T6-policy-wrapping", "sanitize", sz.name, sz.loc,
+              "the sanitised options carry the wrapped policy iff the user set one", "result.filter_policy = %s" % fp)
